@@ -26,14 +26,14 @@ _SHARED = {}
 INDENTS = ["", " ", "\t", "    "]
 SEPS = ["", "\n", "\n\n", "\n-----\n", "§", "\r\n", " "]
 FCOMMENTS = [None, "% custom {n}", "%% no placeholder", "% WARNING {n} {n}"]
-KEYS = ["a", "ab", "year", "author", "title", "booktitle", "k" * 12, "x" * 25, "é", "a-b", "UPPER"]
-VALUES = ["{v}", '"q"', "{multi\nline}", "12", "{a {b} c}", "ident", '{x} # "y"', "{}", '""', "{ trailing }"]
+KEYS = ["a", "ab", "year", "author", "title", "booktitle", "k" * 12, "x" * 25, "é", "a-b", "UPPER", "ID", "ENTRYTYPE", "y" * 300, "0"]
+VALUES = ["{v}", '"q"', "{multi\nline}", "12", "{a {b} c}", "ident", '{x} # "y"', "{}", '""', "{ trailing }", "0", "{" + "long " * 80 + "}"]
 
 
 def rand_library(r):
     specs = []
     big = r.random() < 0.01
-    for _ in range(r.randint(30, 120) if big else r.choice([0, 1, 1, 2, 2, 3, 4, 6])):
+    for _ in range((r.randint(30, 120) if r.random() < 0.8 else r.randint(257, 300)) if big else r.choice([0, 1, 1, 2, 2, 3, 4, 6])):
         k = r.random()
         if k < .5:
             nf = r.choice([0, 1, 2, 2, 3, 4, 5, 6, 7])
